@@ -497,8 +497,10 @@ func run(c *core.Ctx) {
 		case j%3 == 0 && (j/3)%4 == 3:
 			runSharedGraph(c)
 			runJoinHooks(c, j/12)
+			runHooked(c, j/3)
 		case j%3 == 0:
 			runRead(c, readKinds[(j/3)%len(readKinds)])
+			runHooked(c, j/3)
 		default:
 			// three of the 288 (type, operation, shape) combinations per case: the quick tier covers all of them
 			idx := (j/3)*2 + j%3 - 1
@@ -604,13 +606,17 @@ func run(c *core.Ctx) {
 var Engine = &core.Engine{
 	ID:    "C13",
 	Level: "fault_enumeration",
-	Rule: "a Delete is repeated on the same in-memory records (rows gone: same hooks), a Save of a record with a preset key and no row must run every phase once; every operation also runs as the first statement of a fresh handle (cold schema cache, raw DDL) and must fire the same hooks; after-hooks address the current record through the statement (SetColumn / Changed); the 16 write operation kinds of C05 over seeded record graphs (struct, value slice, pointer slice, batches; children with their own hooks) plus 7 read kinds (Find, First, Take, Preload, condition, map destination, FindInBatches); each operation is run fault-free (sequence, exactly-once, statement position, slice order, transaction identity of hook writes, stored before-hook values), in a SkipHooks session, and once per hook invocation index with that invocation failing; " +
+	Rule: "SkipHooks matrix over a second model family whose EVERY related model (belongs to, has one, has many with a nested has many, many to many with a join model) declares all nine hooks: each of ~70 operations that run further statements on their own (Delete with selected relations / clause.Associations over struct, value slice and pointer slice, nested Select, association mode Append / Replace / Clear / Delete / Find / Count with and without Unscoped for each relation kind, Create / Save of new graphs, Save of an existing graph with and without FullSaveAssociations, Updates with associations, upsert, FirstOrCreate, nested Preload, Preload below Joins, FindInBatches whose callback writes through the handle it is given, UpdateColumn / UpdateColumns in five forms) is paired with each of 11 ways to derive the handle (Session{SkipHooks}, with NewDB in the same or a later Session call, a further Session / WithContext, Begin before and after the Session call, Transaction, nested Transaction): the pair is run with hooks (must fire hooks, creates and selected-relation deletes are checked exactly: once per in-memory record, once per link record / per selected relation for the records gorm makes itself, inside the span of the argument's before- and after-hooks, one transaction that also carries every hook's own write), then below SkipHooks (no hook of any model, no error), and for single-operation writes once per hook invocation with that invocation refused (error returned, everything undone, only the failing phase continues); column-update methods must fire nothing with hooks on either; the quick tier runs every (operation, handle) pair once; " +
+		"a Delete is repeated on the same in-memory records (rows gone: same hooks), a Save of a record with a preset key and no row must run every phase once; every operation also runs as the first statement of a fresh handle (cold schema cache, raw DDL) and must fire the same hooks; after-hooks address the current record through the statement (SetColumn / Changed); the 16 write operation kinds of C05 over seeded record graphs (struct, value slice, pointer slice, batches; children with their own hooks) plus 7 read kinds (Find, First, Take, Preload, condition, map destination, FindInBatches); each operation is run fault-free (sequence, exactly-once, statement position, slice order, transaction identity of hook writes, stored before-hook values), in a SkipHooks session, and once per hook invocation index with that invocation failing; " +
 		"distinct = (kind, hooks fired, records) resp. (kind, failing hook, type, first/last); non-trivial = at least one hook fired",
 	Assumptions: []string{
 		"records are identified by the address of the in-memory struct the hook receives",
 		"for Updates/Delete by condition the only in-memory record is the model value handed to Model()/Delete(): each hook once",
 		"a value assigned directly in BeforeSave must be stored by Create and Save; for Update/Updates only tx.Statement.SetColumn is the documented way and only that is checked",
 		"CreateInBatches runs one create per batch: statement-position checks are per operation and skipped there, exactly-once and rollback are checked",
+		"a handle gorm derives from a SkipHooks session - for its own further statements (association deletes, association mode, association saving, preloading) or to hand it to user code (Begin, the callbacks of Transaction and FindInBatches) - belongs to that session: no hook of any model may run through it",
+		"a Delete with selected relations removes the associated rows through one internal model value per selected relation (the join model for many to many): BeforeDelete and AfterDelete of that model once each, the same reading as for Delete by condition; whether they run before or after the owner's statement is not fixed and not checked",
+		"hooked family: graphs handed to Create / Save attach only NEW associated records (which hooks an already stored associated record sees when it is upserted is not fixed by the statement); association mode, Save of an existing graph, Updates with associations, upsert, FirstOrCreate and reads are run with hooks only to show that hooks apply (and, for the single-operation writes, for the refusal enumeration): their exact sequence is not demanded; empty slices and zero-key delete arguments are not generated",
 	},
 	Cases: func(tier string) int {
 		if tier == "thorough" {
